@@ -334,7 +334,11 @@ def _try(ctx, mech, f):
 def _shapeops(ctx, p, rng):
     D, P, vk = p['D'], p['P'], p['vals']
     # reshape
-    for shape, news in [((6,), (2, 3)), ((2, 3), (6,)), ((2, 3), 6), ((2, 3), (3, -1)), ((2, 3, 2), (-1, 4)), ((4,), (2, 2, 1)), ((2, 3), (1, 6, 1)), ((1,), ())]:
+    # (the new shape also as a NumPy integer - x.reshape(numpy.prod(x.shape)) - , a list, an array, a tuple of NumPy integers; sizes that
+    # coincide with D or P included)
+    for shape, news in [((6,), (2, 3)), ((2, 3), (6,)), ((2, 3), 6), ((2, 3), (3, -1)), ((2, 3, 2), (-1, 4)), ((4,), (2, 2, 1)), ((2, 3), (1, 6, 1)), ((1,), ()),
+                        ((2, 3), np.int64(6)), ((2, 3), np.prod(np.array([2, 3]))), ((6,), [2, 3]), ((2, 3), np.array([3, 2])), ((4,), (np.int32(2), np.int16(2))),
+                        ((D, P), np.int64(D * P)), ((P, D), [D * P])]:
         for noncontig in (False, True):
             if noncontig and len(shape) < 2:
                 continue
@@ -345,7 +349,7 @@ def _shapeops(ctx, p, rng):
                 x = x.T; src = np.transpose(data, (0, 1) + tuple(range(2, data.ndim))[::-1])
                 if np.prod(src.shape[2:]) != np.prod(np.zeros(shape).reshape(news).shape):
                     continue
-            nt = news if isinstance(news, tuple) else (news,)
+            nt = tuple(int(v) for v in np.atleast_1d(np.asarray(news)).tolist()) if not isinstance(news, tuple) else news
             for ent, f in (('method', lambda: x.reshape(news)), ('global', lambda: algopy.reshape(x, news))):
                 ok, y = _try(ctx, 'reshape', f)
                 if not ok:
@@ -518,7 +522,7 @@ def _construct(ctx, p, rng):
         if vk == 'nonfinite' and data.size:
             data.reshape(-1)[0] = np.inf          # the dtype carrier's first element is non-finite
         x = UTPM(data.copy())
-        for tshape in [2, (3,), (2, 3), (), np.int64(4), np.prod(np.array([2, 2])), (np.int32(2), 3)]:          # every spelling of a shape NumPy accepts
+        for tshape in [2, (3,), (2, 3), (), np.int64(4), np.prod(np.array([2, 2])), (np.int32(2), 3), [2, 3], np.array([3, 2]), [D], np.array([P, D])]:          # every spelling of a shape NumPy accepts
             ts = (int(tshape),) if isinstance(tshape, (int, np.integer)) else tuple(int(v) for v in tshape)
             for nm, f, ref0 in (('zeros', lambda: algopy.zeros(tshape, dtype=x), np.zeros), ('ones', lambda: algopy.ones(tshape, dtype=x), np.ones)):
                 ok, y = _try(ctx, nm, f)
